@@ -223,6 +223,7 @@ StdClose(xs, o) ==
         o5  == o \div 32
         lo  == IF o5 >= 1 THEN o5 - 1 ELSE 0
     IN  /\ o >= 0
+        /\ o <= (Spread(xs) + 1) * P          \* std <= spread (also keeps the squares in range)
         /\ lo * lo <= vfl + tol + 1
         /\ (o5 + 2) * (o5 + 2) >= vfl - tol
 
